@@ -255,6 +255,23 @@ impl GenerationPass for AvailableValuePass {
                 rule_perform_math_ops(&node.node(), &mut out_reg_n, &node.reg_values_in());
                 rule_push_value_to_csr_memory(&node.node(), &mut out_memory_n, &out_reg_n);
                 rule_known_values_to_stack(&mut out_memory_n, &node.reg_values_in());
+                // A slot that still says "what register r holds" stops
+                // being true when this node overwrites r: later nodes would
+                // read it as r's new value.
+                let mut overwritten = node.kill_reg();
+                if node.is_ecall() {
+                    overwritten |= node
+                        .known_ecall_signature()
+                        .map_or_else(Register::return_set, |(_, rets)| rets);
+                }
+                if !overwritten.is_empty() {
+                    out_memory_n = out_memory_n
+                        .into_iter()
+                        .filter(|(_, val)| {
+                            !matches!(val, AvailableValue::RegisterWithScalar(r, _) if overwritten.contains(r))
+                        })
+                        .collect();
+                }
                 // TODO stack reset?
 
                 // A write to the zero register is discarded by the machine;
